@@ -200,7 +200,13 @@ class Normalizer:
                         return self.form(args[0])
                     for pat, fa in FUNC_ATOMS.items():
                         if callee.endswith(pat):
-                            return self.A("%s(%s)" % (fa, ", ".join(show(self.form(a)) for a in args)))
+                            if fa == "satsub" and getattr(self, "linear_satsub", False) and len(args) == 2:
+                                # saturating difference, keyed by the (linear) difference itself: satsub(a + 1, b) == satsub(a, b - 1)
+                                return self.A("satdiff(%s)" % show(add(self.form(args[0]), self.form(args[1]), -1)))
+                            shown = [show(self.form(a)) for a in args]
+                            if fa in ("min", "max"):
+                                shown.sort()    # commutative
+                            return self.A("%s(%s)" % (fa, ", ".join(shown)))
                 return self.A(self.call_atom(callee, args))
             # unwrap of a transparent try_from etc.
             if name.startswith("unwrap:") or name.startswith("tryok:"):
@@ -213,3 +219,35 @@ class Normalizer:
 
 def equal(f1, f2):
     return f1 == f2
+
+
+def resort(s):
+    """re-sort the arguments of min(..)/max(..) in a shown form after atoms were renamed (the order chosen by
+    Normalizer.form is the order of the un-renamed atoms)"""
+    out, i = [], 0
+    while i < len(s):
+        if s.startswith(("min(", "max("), i) and (i == 0 or not (s[i - 1].isalnum() or s[i - 1] in "_:")):
+            depth, j = 0, i + 3
+            args, start = [], i + 4
+            while j < len(s):
+                c = s[j]
+                if c in "([{":
+                    depth += 1
+                elif c in ")]}":
+                    depth -= 1
+                    if depth == 0:
+                        args.append(s[start:j])
+                        break
+                elif c == "," and depth == 1 and s[j + 1:j + 2] == " ":
+                    args.append(s[start:j])
+                    start = j + 2
+                j += 1
+            else:
+                out.append(s[i:])
+                break
+            out.append(s[i:i + 4] + ", ".join(sorted(resort(a) for a in args)) + ")")
+            i = j + 1
+        else:
+            out.append(s[i])
+            i += 1
+    return "".join(out)
